@@ -405,6 +405,9 @@ def check_wrappers(x, P, NFFT, kw):
 
 
 def replay(rep):
+    if rep.get('replay', {}).get('form') == 'routes':
+        from props import _estimators as E_
+        return E_.replay_routes(rep['replay'])
     if rep['replay'].get('protocol') == 'values_only':
         from props import _purity
         return _purity.replay_protocol(rep['replay'])
@@ -474,6 +477,9 @@ def run(ctx):
     from spectrum.eigenfre import eigen, pmusic, pev
     rng = ctx.rng
     ctx.check_theorems('Properties/C17.v')
+    # the estimate an object holds does not depend on the history that gave it its data and settings (every route of _estimators.via)
+    from props import _estimators as E_
+    E_.class_route_stream(ctx, ['pmusic', 'pev'], 'routes')
 
     # ---------------- (1) forward-backward data matrix, exactly
     cases = []; meta = []
